@@ -24,7 +24,8 @@ RULE = (
     "deep copy at every comparison (aliasing-free model), aggregates per site with the category model, and "
     "compares with the values found in the rewritten file after a create run; a second variant first creates, "
     "then re-runs a changed schedule with fix+trim. bad_copy: values whose deep copy is not equal to them "
-    "(identity __eq__, lossy __deepcopy__), also nested in containers: the comparison must raise UsageError and "
+    "(identity __eq__, lossy __deepcopy__, and values that deepcopy returns unchanged but that are not equal to "
+    "themselves: float nan, Decimal NaN, a class of that kind), also nested in containers: the comparison must raise UsageError and "
     "the site must stay unwritten. non-trivial = a mutation happens after a comparison whose operand would "
     "otherwise be recorded (the mutated variable was compared before)."
 )
@@ -233,16 +234,26 @@ def check_schedule(case):
 
 @st.composite
 def _bad_case(draw, tier):
-    cls = draw(st.sampled_from(["IdentityEq", "LossyCopy"]))
+    cls = draw(st.sampled_from(["IdentityEq", "LossyCopy", "SelfCopy", "nan", "decnan"]))
     wrap = draw(st.sampled_from(["{}", "[{}]", "[1, {}]", "{{'k': {}}}", "({}, 2)", "Point(x={}, y=1)", "[[{}]]"]))
+    if cls in ("SelfCopy", "nan", "decnan"):
+        # values that copy.deepcopy returns unchanged but that are not equal to themselves; inside a builtin
+        # container python's identity shortcut makes the container equal to its copy, so only the bare value
+        wrap = "{}"
     op = draw(st.sampled_from(["eq", "in", "getitem", "eq"]))
-    return {"cls": cls, "wrap": wrap, "op": op, "n": draw(st.integers(0, 5)), "after_ok": draw(st.booleans())}
+    return {"cls": cls, "wrap": wrap, "op": op, "n": draw(st.integers(0, 5)), "after_ok": draw(st.booleans()),
+            # the snapshot already holds a value (which must stay as it is)
+            "prev": draw(st.sampled_from([False, False, True]))}
 
 
 def check_bad(case):
-    expr = case["wrap"].format(f"{case['cls']}({case['n']})")
+    inner = {"nan": "float('nan')", "decnan": "Decimal('NaN')"}.get(case["cls"], f"{case['cls']}({case['n']})")
+    expr = case["wrap"].format(inner)
     op = case["op"]
-    cmp = {"eq": "v == snapshot()", "in": "v in snapshot()", "getitem": "v == snapshot()['k']"}[op]
+    if case.get("prev"):
+        cmp = {"eq": "v == snapshot(7)", "in": "v in snapshot([7, 8])", "getitem": "v == snapshot({'k': 7})['k']"}[op]
+    else:
+        cmp = {"eq": "v == snapshot()", "in": "v in snapshot()", "getitem": "v == snapshot()['k']"}[op]
     src = ("from inline_snapshot import snapshot\nfrom vf_prelude import *\n\nLOG = []\n\n\ndef test_a():\n"
            f"    v = {expr}\n    try:\n        LOG.append({cmp})\n    except Exception as e:\n"
            "        LOG.append(type(e).__name__)\n")
@@ -260,6 +271,8 @@ def check_bad(case):
     # a sub-snapshot site may be left as the empty mapping `snapshot({})` (an accepted state: the key is
     # created by the next run); nothing else may have been written
     ok_empty = r[0][0] == "empty" or (op == "getitem" and r[0][0] == "value" and r[0][1] == {})
+    if case.get("prev"):
+        ok_empty = r[0][0] == "value" and r[0][1] == {"eq": 7, "in": [7, 8], "getitem": {"k": 7}}[op]
     if not ok_empty:
         raise Violation("recorded-anyway", f"site was written although the value was rejected\n{text}")
     if case["after_ok"] and (r[1][0] != "value" or r[1][1] != 5):
